@@ -1007,3 +1007,223 @@ mod tests {
         assert!(muxer.flush_segment().is_none());
     }
 }
+
+// ============================================================================
+// Verification hooks (cargo feature `verif`): call-through wrappers around the
+// private box builders, a fixed-capacity state constructor and a read-only
+// digest. Add-only; not compiled by default.
+// ============================================================================
+#[cfg(feature = "verif")]
+#[doc(hidden)]
+#[allow(private_interfaces)]
+pub mod verif {
+    use super::*;
+
+    pub fn mk_sample(pts: u64, dts: u64, data: Vec<u8>, is_sync: bool) -> FragmentSample {
+        FragmentSample {
+            pts,
+            dts,
+            data,
+            is_sync,
+        }
+    }
+
+    /// Muxer state built without reallocation (exactly N pushes into a vector
+    /// of capacity `N + spare`).
+    pub fn muxer_with_state<const N: usize>(
+        config: FragmentConfig,
+        samples: [FragmentSample; N],
+        spare: usize,
+        sequence_number: u32,
+        base_media_decode_time: u64,
+        init_segment: Option<Vec<u8>>,
+        last_dts: Option<u64>,
+    ) -> FragmentedMuxer {
+        let mut queued = Vec::with_capacity(N + spare);
+        for s in samples {
+            queued.push(s);
+        }
+        FragmentedMuxer {
+            config,
+            samples: queued,
+            sequence_number,
+            base_media_decode_time,
+            init_segment,
+            last_dts,
+        }
+    }
+
+    #[derive(Clone, Copy, Debug, PartialEq, Eq)]
+    pub struct FragSampleDigest {
+        pub pts: u64,
+        pub dts: u64,
+        pub len: usize,
+        pub first: u8,
+        pub is_sync: bool,
+    }
+
+    #[derive(Clone, Copy, Debug, PartialEq, Eq)]
+    pub struct FragDigest {
+        pub queued: usize,
+        pub sequence_number: u32,
+        pub base_media_decode_time: u64,
+        pub init_cached: bool,
+        pub last_dts: Option<u64>,
+        pub first_sample: Option<FragSampleDigest>,
+        pub last_sample: Option<FragSampleDigest>,
+    }
+
+    fn sd(s: &FragmentSample) -> FragSampleDigest {
+        FragSampleDigest {
+            pts: s.pts,
+            dts: s.dts,
+            len: s.data.len(),
+            first: s.data.first().copied().unwrap_or(0),
+            is_sync: s.is_sync,
+        }
+    }
+
+    pub fn digest(m: &FragmentedMuxer) -> FragDigest {
+        FragDigest {
+            queued: m.samples.len(),
+            sequence_number: m.sequence_number,
+            base_media_decode_time: m.base_media_decode_time,
+            init_cached: m.init_segment.is_some(),
+            last_dts: m.last_dts,
+            first_sample: m.samples.first().map(sd),
+            last_sample: m.samples.last().map(sd),
+        }
+    }
+
+    pub fn sample_digest(m: &FragmentedMuxer, idx: usize) -> Option<FragSampleDigest> {
+        m.samples.get(idx).map(sd)
+    }
+
+    pub fn sample_data(m: &FragmentedMuxer, idx: usize) -> Option<&[u8]> {
+        m.samples.get(idx).map(|s| s.data.as_slice())
+    }
+
+    pub fn config(m: &FragmentedMuxer) -> &FragmentConfig {
+        &m.config
+    }
+
+    pub fn build_media_segment(
+        samples: &[FragmentSample],
+        sequence_number: u32,
+        base_media_decode_time: u64,
+        timescale: u32,
+    ) -> Vec<u8> {
+        super::build_media_segment(samples, sequence_number, base_media_decode_time, timescale)
+    }
+    pub fn build_moof_with_offset(
+        samples: &[FragmentSample],
+        sequence_number: u32,
+        base_media_decode_time: u64,
+        data_offset: u32,
+    ) -> Vec<u8> {
+        super::build_moof_with_offset(samples, sequence_number, base_media_decode_time, data_offset)
+    }
+    pub fn build_traf(
+        samples: &[FragmentSample],
+        base_media_decode_time: u64,
+        data_offset: u32,
+    ) -> Vec<u8> {
+        super::build_traf(samples, base_media_decode_time, data_offset)
+    }
+    pub fn build_trun(samples: &[FragmentSample], data_offset: u32) -> Vec<u8> {
+        super::build_trun(samples, data_offset)
+    }
+    pub fn build_mfhd(sequence_number: u32) -> Vec<u8> {
+        super::build_mfhd(sequence_number)
+    }
+    pub fn build_tfhd() -> Vec<u8> {
+        super::build_tfhd()
+    }
+    pub fn build_tfdt(base_media_decode_time: u64) -> Vec<u8> {
+        super::build_tfdt(base_media_decode_time)
+    }
+    pub fn build_box(typ: &[u8; 4], payload: &[u8]) -> Vec<u8> {
+        super::build_box(typ, payload)
+    }
+    pub fn build_ftyp_fmp4() -> Vec<u8> {
+        super::build_ftyp_fmp4()
+    }
+    pub fn build_moov_fmp4(config: &FragmentConfig) -> Vec<u8> {
+        super::build_moov_fmp4(config)
+    }
+    pub fn build_mvhd_fmp4(timescale: u32) -> Vec<u8> {
+        super::build_mvhd_fmp4(timescale)
+    }
+    pub fn build_mvex() -> Vec<u8> {
+        super::build_mvex()
+    }
+    pub fn build_trak_fmp4(config: &FragmentConfig) -> Vec<u8> {
+        super::build_trak_fmp4(config)
+    }
+    pub fn build_tkhd_fmp4(config: &FragmentConfig) -> Vec<u8> {
+        super::build_tkhd_fmp4(config)
+    }
+    pub fn build_mdia_fmp4(config: &FragmentConfig) -> Vec<u8> {
+        super::build_mdia_fmp4(config)
+    }
+    pub fn encode_language_code(language: &str) -> [u8; 2] {
+        super::encode_language_code(language)
+    }
+    pub fn build_mdhd_fmp4(timescale: u32, language: Option<&str>) -> Vec<u8> {
+        super::build_mdhd_fmp4(timescale, language)
+    }
+    pub fn build_hdlr_video() -> Vec<u8> {
+        super::build_hdlr_video()
+    }
+    pub fn build_minf_fmp4(config: &FragmentConfig) -> Vec<u8> {
+        super::build_minf_fmp4(config)
+    }
+    pub fn build_vmhd() -> Vec<u8> {
+        super::build_vmhd()
+    }
+    pub fn build_dinf() -> Vec<u8> {
+        super::build_dinf()
+    }
+    pub fn build_stbl_fmp4(config: &FragmentConfig) -> Vec<u8> {
+        super::build_stbl_fmp4(config)
+    }
+    pub fn build_stsd_fmp4(config: &FragmentConfig) -> Vec<u8> {
+        super::build_stsd_fmp4(config)
+    }
+    pub fn build_avc1_fmp4(config: &FragmentConfig) -> Vec<u8> {
+        super::build_avc1_fmp4(config)
+    }
+    pub fn build_hvc1_fmp4(config: &FragmentConfig) -> Vec<u8> {
+        super::build_hvc1_fmp4(config)
+    }
+    pub fn build_avcc_fmp4(config: &FragmentConfig) -> Vec<u8> {
+        super::build_avcc_fmp4(config)
+    }
+    pub fn build_hvcc_fmp4(config: &FragmentConfig) -> Vec<u8> {
+        super::build_hvcc_fmp4(config)
+    }
+    pub fn build_av01_fmp4(config: &FragmentConfig) -> Vec<u8> {
+        super::build_av01_fmp4(config)
+    }
+    pub fn build_av1c_fmp4(config: &FragmentConfig) -> Vec<u8> {
+        super::build_av1c_fmp4(config)
+    }
+    pub fn build_vp09_fmp4(config: &FragmentConfig) -> Vec<u8> {
+        super::build_vp09_fmp4(config)
+    }
+    pub fn build_vpcc_fmp4(config: &FragmentConfig) -> Vec<u8> {
+        super::build_vpcc_fmp4(config)
+    }
+    pub fn build_empty_stts() -> Vec<u8> {
+        super::build_empty_stts()
+    }
+    pub fn build_empty_stsc() -> Vec<u8> {
+        super::build_empty_stsc()
+    }
+    pub fn build_empty_stsz() -> Vec<u8> {
+        super::build_empty_stsz()
+    }
+    pub fn build_empty_stco() -> Vec<u8> {
+        super::build_empty_stco()
+    }
+}
